@@ -35,6 +35,18 @@ func checkC01(c *Ctx) Meta {
 	c01Tamper(c)
 	c01Dup(c)
 	c01Delete(c)
+	// premises shared with other properties, run here under C01's name (rule texts are theirs):
+	// - transaction discipline (C12): an import or delete is one transaction, memory changes only after
+	//   its commit, no error is swallowed — so the wallet the file is exported from / imported into is the
+	//   one the store holds, also when a commit fails
+	// - the store's own key layout, prefix scans and bucket deletion (C19): a deleted keystore leaves
+	//   nothing behind that a later import of the same file would meet
+	c.pushAlias("C12-", "C01-TX-")
+	checkC12(c)
+	c.popAlias()
+	c.pushAlias("C19-", "C01-LDB-")
+	checkC19(c)
+	c.popAlias()
 
 	return Meta{
 		Explanation: "Export/import decided as a writer/reader pair over the keystore file: field-by-field agreement with the durable keys (backward slices through the read helpers and forward into the put helpers), branch polarity of counters and of the two re-derivation loops, the passphrase gate of the import, authentication of every consumed field, the duplicate gate, and the completeness of delete.",
